@@ -23,7 +23,7 @@ RULE = (
     "convolve_with}; leaves: integer lattice images (k<=3, both parities) and 3^d filters; all g in B_2, 12 (quick) / 48 "
     "(thorough) g in B_3. Non-trivial: >=2 operator nodes, root not identically zero, g != e; distinct by canonical tree string."
 )
-RULE += " Also: non-square images with per-axis flags, filter leaves with unequal sides from {1,3,5} (1 case in 3), object-level variant with the library's own action, strided root convolution in the equivariant regime."
+RULE += " Single operators on narrow containers (uint8 / uint16 / int8 / int16, values 0..3) against the float32 image. Also: non-square images with per-axis flags, filter leaves with unequal sides from {1,3,5} (1 case in 3), object-level variant with the library's own action, strided root convolution in the equivariant regime."
 ASSUMPTIONS = ["reference action", "comparison relative 1e-4 of the node's magnitude (exact for integer nodes; float below a norm node)"]
 ANCHORS = [
     "ginjax.geometric.geometric_image:GeometricImage.__init__", "ginjax.geometric.geometric_image:GeometricImage.__add__", "ginjax.geometric.geometric_image:GeometricImage.__sub__",
@@ -303,6 +303,34 @@ def run(case, ctx):
         if not np.array_equal(np.asarray(xy.data), np.asarray(yx.transpose(perm).data)) or xy.parity != yx.parity:
             viols.append(viol("tensor-product-commutativity", f"A(x)B != transpose(B(x)A) for k={k1},{k2}"))
         evals += 3
+        # container independence of the single operators: an image stored in a narrow container (uint8 / uint16 / int8 / int16:
+        # masks, raw sensor counts) with small values - every exact result below is representable in the input container - must
+        # give the values and the declared type of the same operator on the float32 image (differences are left out: an
+        # unsigned difference wraps by the container's own arithmetic)
+        dt = ["uint8", "int16", "uint16", "int8"][case["i"] % 4]
+        kz = int(rng.integers(max(2, D - 1), 4)) if D == 2 else int(rng.integers(2, 4))
+        zv = rng.integers(0, 4, size=sp + (D,) * kz)
+        yv = rng.integers(0, 3, size=sp + (D,) * 1)
+        Zn, Zf = (geom.GeometricImage(jnp.asarray(zv.astype(d_)), 1, D, torus) for d_ in (dt, np.float32))
+        Yn, Yf = (geom.GeometricImage(jnp.asarray(yv.astype(d_)), 0, D, torus) for d_ in (dt, np.float32))
+        pair = tuple(int(v) for v in rng.permutation(kz)[:2])
+        lidx = tuple(int(v) for v in rng.permutation(kz)[: D - 1])
+        single = [
+            ("transpose", lambda z, y: z.transpose(tuple(range(kz))[::-1])), ("contract", lambda z, y: z.contract(*pair)),
+            ("levi_civita_contract", lambda z, y: z.levi_civita_contract(lidx if len(lidx) > 1 else lidx[0])), ("mul", lambda z, y: z * y),
+            ("add", lambda z, y: z + z), ("scale", lambda z, y: z * 2), ("norm", lambda z, y: z.norm()),
+        ]
+        for nm, f_ in single:
+            try:
+                rn, rf = f_(Zn, Yn), f_(Zf, Yf)
+            except Exception as e:
+                viols.append(viol(f"operator-exception-{type(e).__name__}", f"{nm} on a {dt} image raised {type(e).__name__}: {str(e)[:200]}"))
+                continue
+            evals += 1
+            a_, b_ = np.asarray(rn.data).astype(np.float64), np.asarray(rf.data).astype(np.float64)
+            if (rn.k, rn.parity) != (rf.k, rf.parity) or a_.shape != b_.shape or not np.allclose(a_, b_, rtol=1e-5, atol=1e-6):
+                viols.append(viol("operator-depends-on-container", f"{nm} on a {dt} image (values 0..3) differs from the same operator on the float32 image: declared ({rn.k},{rn.parity}) vs ({rf.k},{rf.parity}), max diff {float(np.max(np.abs(a_ - b_))) if a_.shape == b_.shape else 'shape'}; D={D} k={kz} idx={pair if nm == 'contract' else lidx}"))
+                break
     nontrivial = len(ops) >= 2 and bool(np.any(np.asarray(root.data) != 0))
     return result(ts, viols, nontrivial, evals=evals, obs={"tree_evaluations": evals, "nodes_compared": len(base_trace) * max(1, evals - 4)},
                   hist={"D": D, "ops": ops, "n_ops": min(len(ops), 12), "root_k": root_k, "shape": "cube" if len(set(sp)) == 1 else "non-square", "flags": "uniform" if len(set(torus)) == 1 else "mixed"}, sample={"tree": ts, "leaves": g_.leaves[:6]})
